@@ -25,7 +25,7 @@ pub static DEF: PropDef = PropDef {
         "SimpleFinalizer (documented as unchecked, not for production) is not a route",
     ],
     shards: (16, 64),
-    budget_ms: (10_000, 30_000),
+    budget_ms: (60_000, 180_000),
 };
 
 /// inspect_T : T -> 1, whose principal source type is exactly T
